@@ -28,7 +28,14 @@
     literal WRITES them — which need not be the order of the record type — and
     each value becomes the field it was written for;
   * a script-function call evaluates the arguments left to right, then runs
-    the callee to its end or to its first `return`.
+    the callee to its end or to its first `return`;
+  * host calls the compiler inserts IMPLICITLY happen at the point of the
+    construct they belong to: `{e}` in an f-string whose `e` is a value of a
+    registered host type calls that type's `to_string` right after `e` has
+    been evaluated and before the next part is (parts of primitive type are
+    converted without a host call); `a == b` / `a != b` on two values of a
+    registered host type call the type's equality once, after both operands.
+    (Clones and drops of host values are not part of the property.)
 
   The writer-style result `R` carries the trace of exactly the evaluated piece,
   so `trace (a ; b) = trace a ++ trace b` holds by construction and the
@@ -52,6 +59,7 @@ inductive Val
   | recd (fs : List Int)             -- record `{ a: i32, b: i32, … }`
   | list (xs : List Int)             -- List[i32]
   | verdict (acc : Bool) (v : Int)   -- Verdict[i32, i32]
+  | tok (v : Int)                    -- the registered host type `Tok` (a value type wrapping an i32)
   deriving DecidableEq, Repr, Inhabited
 
 /-- One call of a host function: which one, with which argument values. -/
@@ -96,6 +104,11 @@ def binop (op : BinOp) (a b : Val) : Option Val :=
     | _ => none
   | _, _ => none
 
+def showInt (v : Int) : String := toString v
+
+/-- the text of a `Tok` -/
+def tokText (v : Int) : String := "T" ++ showInt v
+
 /-- The host functions the harness registers (ids are the event's `fn`).
     Every one logs its arguments; the result is a pure function of them.
       0 `emit(k, v: i32) -> i32`      1 `emit_b(k, v: bool) -> bool`
@@ -103,7 +116,10 @@ def binop (op : BinOp) (a b : Val) : Option Val :=
       4 `emit_o(k, v: i32) -> i32?`   (Some(v) when v is even)
       5 `i32.mix(self, k, y) -> i32`  (method: the receiver is argument 0)
       6 `emit3(k, a, b) -> i32`       (a - b)
-      7 `emit_l(k, l: List[i32]) -> List[i32]` -/
+      7 `emit_l(k, l: List[i32]) -> List[i32]`
+    and the registered host type `Tok`:
+      8 `tok(k, v: i32) -> Tok`       9 `Tok.to_string(self) -> String`  ("T<v>"; also what `{e}` calls)
+     10 `Tok.peek(self, k) -> i32`   (11 is the type's equality, see `hostEq`) -/
 def hostSem (f : Nat) (args : List Val) : Option Val :=
   match f, args with
   | 0, [.int _, .int v] => some (.int v)
@@ -114,6 +130,9 @@ def hostSem (f : Nat) (args : List Val) : Option Val :=
   | 5, [.int s, .int _, .int y] => some (.int (wrap32 (s + y)))
   | 6, [.int _, .int a, .int b] => some (.int (wrap32 (a - b)))
   | 7, [.int _, .list l] => some (.list l)
+  | 8, [.int _, .int v] => some (.tok v)
+  | 9, [.tok v] => some (.str (tokText v))
+  | 10, [.tok v, .int _] => some (.int v)
   | _, _ => none
 
 /-- A `match` pattern: an enum variant with its field binders, or `_`.
@@ -130,6 +149,9 @@ inductive Expr
   | host (f : Nat) (args : Exprs)        -- host function / method (receiver = first argument)
   | call (f : Nat) (args : Exprs)        -- script function number `f`
   | bin (op : BinOp) (l r : Expr)
+  /-- `l == r` (`ne = false`) / `l != r` on two values of a registered host type: the compiler calls
+      the type's equality (an implicit host call) -/
+  | eqH (ne : Bool) (l r : Expr)
   | and (l r : Expr)
   | or (l r : Expr)
   | not (e : Expr)
@@ -206,6 +228,8 @@ namespace R
 @[inline] def early {α} (v : Val) : R α := ⟨[], .ret v⟩
 /-- log one host call -/
 @[inline] def emit (e : Event) : R Unit := ⟨[e], .ok ()⟩
+/-- log host calls -/
+@[inline] def emits (t : Trace) : R Unit := ⟨t, .ok ()⟩
 
 /-- Sequencing: the second piece runs only if the first ended normally, and
     its calls come after the first's. -/
@@ -322,14 +346,29 @@ def setField (env : Env) (x i : Nat) (k : Int) : Option Env :=
   | some (.recd fs) => if i < fs.length then update env x (.recd (fs.set i k)) else none
   | _ => none
 
-def showInt (v : Int) : String := toString v
-
-/-- What `{e}` inside an f-string appends. -/
+/-- What `{e}` inside an f-string appends when `e` has a primitive type (no host call). -/
 def display : Val → Option String
   | .int v => some (showInt v)
   | .bool b => some (if b then "true" else "false")
   | .str s => some s
   | _ => none
+
+/-- the id of the implicit calls: `Tok.to_string` (the same function as the method) and the
+    equality of `Tok` -/
+def fnToString : Nat := 9
+def fnEq : Nat := 11
+
+/-- What `{e}` inside an f-string appends, and the host calls converting it makes: for a value
+    of the registered host type the compiler inserts a call of the type's `to_string`. -/
+def render : Val → Option (Trace × String)
+  | .tok v => some ([⟨fnToString, [.tok v]⟩], tokText v)
+  | v => (display v).map (fun s => ([], s))
+
+/-- `==` (`ne = false`) / `!=` (`ne = true`) on two values of the registered host type: one call
+    of the type's equality (`!=` negates its answer). Defined for nothing else. -/
+def hostEq (ne : Bool) : Val → Val → Option (Trace × Val)
+  | .tok x, .tok y => some ([⟨fnEq, [.tok x, .tok y]⟩], .bool (if ne then decide (x ≠ y) else decide (x = y)))
+  | _, _ => none
 
 mutual
 /-- `evalExpr fns fuel env e`: the calls made, and the new environment with the
@@ -370,6 +409,15 @@ def evalExpr (fns : List FnDef) : Nat → Env → Expr → R (Env × Val)
       match binop op a b with
       | some v => pure (env, v)
       | none => .stuck "binary operator: operand types"
+    | .eqH ne l r => do
+      -- both operands first, left to right; then the type's equality, a host call
+      let (env, a) ← evalExpr fns n env l
+      let (env, b) ← evalExpr fns n env r
+      match hostEq ne a b with
+      | some (tr, v) => do
+        R.emits tr
+        pure (env, v)
+      | none => .stuck "== on a host type: operand types"
     | .and l r => do
       let (env, a) ← evalExpr fns n env l
       match a with
@@ -599,9 +647,11 @@ def evalParts (fns : List FnDef) : Nat → Env → Parts → R (Env × String)
     pure (env, s ++ t)
   | n + 1, env, .expr e rest => do
     let (env, v) ← evalExpr fns n env e
-    match display v with
+    -- the part is converted (for a host type: by a call of its `to_string`) before the next part runs
+    match render v with
     | none => .stuck "f-string part cannot be displayed"
-    | some s => do
+    | some (tr, s) => do
+      R.emits tr
       let (env, t) ← evalParts fns n env rest
       pure (env, s ++ t)
 
